@@ -137,7 +137,6 @@ fn run_scope(ctx: &Ctx, sc: &Scope, obs: &Observer) {
                         return Step::Stop;
                     }
                 }
-                obs(ctx, &n, &|| hllm::replay_json(sc.lg_k, start, &ops));
                 Step::Next(n)
             },
             |t: &Trio| {
@@ -159,6 +158,9 @@ fn run_scope(ctx: &Ctx, sc: &Scope, obs: &Observer) {
                     &format!("lg_k={}: the same coupon set reached in two orders gives different register/coupon content", sc.lg_k),
                     json!({"kind":"hll_two_orders","lg_k":sc.lg_k,"start":start,"order_a":o0,"order_b":o1}),
                 );
+            },
+            |t: &Trio, path: &[u16]| {
+                obs(ctx, t, &|| hllm::replay_json(sc.lg_k, start, &path.iter().map(|&i| alphabet[i as usize]).collect::<Vec<u32>>()));
             },
         );
         ctx.add_states(stats.states);
@@ -269,8 +271,8 @@ fn run_deep(ctx: &Ctx, lg_k: u8, bound: usize, max_len: usize, stride1: usize, s
                 } else {
                     t.offer_light(c)
                 };
-                if !vs.is_empty() {
-                    // reconstruct the executed op list: run[..pos] with deviations inserted
+                // the executed op list: run[..pos] with the deviations inserted, then this op
+                let mk_ops = || -> Vec<u32> {
                     let mut ops = vec![];
                     let mut ti = 0;
                     for (i, &r) in run.iter().enumerate().take(pos + 1) {
@@ -285,12 +287,16 @@ fn run_deep(ctx: &Ctx, lg_k: u8, bound: usize, max_len: usize, stride1: usize, s
                     if ops.last() != Some(&c) {
                         ops.push(c);
                     }
-                    if hllm::report(ctx, vs, lg_k, &[], &ops) {
+                    ops
+                };
+                if !vs.is_empty() {
+                    if hllm::report(ctx, vs, lg_k, &[], &mk_ops()) {
                         return false;
                     }
                 }
-                if full {
-                    obs(ctx, t, &|| json!({"kind":"hll_run","lg_k":lg_k,"run":rname,"pos":pos,"deviations":trace}));
+                // observers (C11/C12/C18) see the default run and the states around each deviation
+                if full && (trace.is_empty() || trace.last().map(|t| t.0) == Some(pos)) {
+                    obs(ctx, t, &|| hllm::replay_json(lg_k, &[], &mk_ops()));
                 }
                 true
             },
@@ -304,7 +310,22 @@ fn run_deep(ctx: &Ctx, lg_k: u8, bound: usize, max_len: usize, stride1: usize, s
 
 pub fn explore(ctx: &Ctx, obs: &Observer) {
     let tier = ctx.tier;
-    let scs = scopes(tier);
+    let mut scs = scopes(tier);
+    if ctx.reduced {
+        for sc in scs.iter_mut() {
+            sc.depth = sc.depth.min(tier.pick(8, 11));
+        }
+        scs.par_iter().for_each(|sc| run_scope(ctx, sc, obs));
+        run_deep(ctx, 4, 1, 320, tier.pick(16, 4), 1, 1, obs);
+        run_deep(ctx, 5, 1, 320, tier.pick(32, 8), 1, 1, obs);
+        run_deep(ctx, 8, 1, 1024, tier.pick(256, 64), 1, tier.pick(64, 16), obs);
+        if tier == Tier::Thorough {
+            run_deep(ctx, 6, 1, 512, 16, 1, 2, obs);
+            run_deep(ctx, 10, 1, 4096, 512, 1, 64, obs);
+            run_deep(ctx, 12, 0, 16384, 1, 1, 1024, obs);
+        }
+        return;
+    }
     scs.par_iter().for_each(|sc| run_scope(ctx, sc, obs));
     // all orders, no merging
     let sc4 = &scs[0];
